@@ -39,6 +39,7 @@ type validationContext struct {
 	function       *Function
 	functionName   string
 	loopDepth      int
+	switchDepth    int // enclosing switch statements inside the innermost loop (or the function body)
 	inContinuing   bool
 	expressionUsed map[ExpressionHandle]bool
 }
@@ -541,7 +542,9 @@ func (v *Validator) validateStatement(index int, stmt *Statement) {
 				}
 				hasDefault = true
 			}
+			v.context.switchDepth++
 			v.validateBlock(c.Body)
+			v.context.switchDepth--
 		}
 		if !hasDefault {
 			v.addErrorInStatement(index, "switch missing default case")
@@ -550,6 +553,8 @@ func (v *Validator) validateStatement(index int, stmt *Statement) {
 	case StmtLoop:
 		oldDepth := v.context.loopDepth
 		v.context.loopDepth++
+		oldSwitch := v.context.switchDepth
+		v.context.switchDepth = 0 // a break in the loop body leaves the loop, not an outer switch
 
 		v.validateBlock(kind.Body)
 
@@ -565,13 +570,16 @@ func (v *Validator) validateStatement(index int, stmt *Statement) {
 		}
 
 		v.context.loopDepth = oldDepth
+		v.context.switchDepth = oldSwitch
 
 	case StmtBreak:
-		if v.context.loopDepth == 0 {
-			v.addErrorInStatement(index, "break outside of loop")
-		}
-		if v.context.inContinuing {
-			v.addErrorInStatement(index, "break in continuing block")
+		if v.context.switchDepth == 0 { // otherwise the break leaves the enclosing switch
+			if v.context.loopDepth == 0 {
+				v.addErrorInStatement(index, "break outside of loop or switch")
+			}
+			if v.context.inContinuing {
+				v.addErrorInStatement(index, "break in continuing block")
+			}
 		}
 
 	case StmtContinue:
